@@ -1910,6 +1910,12 @@ vorbis_comment *ov_comment(OggVorbis_File *vf,int link){
   }
 }
 
+/* vorbis_ftoi() is only meaningful inside the int range (the SSE2 variant
+   returns INT_MIN for anything beyond it, which the integer clipping in
+   ov_read_filter() then turns into full-scale *negative*): limit the scaled
+   sample to a range every variant converts correctly before rounding. */
+#define OV_FTOI_RANGE(f) ((f)>65535.f?65535.f:((f)<-65536.f?-65536.f:(f)))
+
 static int host_is_big_endian() {
   ogg_int32_t pattern = 0xfeedface; /* deadbeef */
   unsigned char *bytewise = (unsigned char *)&pattern;
@@ -2009,7 +2015,7 @@ long ov_read_filter(OggVorbis_File *vf,char *buffer,int length,
         vorbis_fpu_setround(&fpu);
         for(j=0;j<samples;j++)
           for(i=0;i<channels;i++){
-            val=vorbis_ftoi(pcm[i][j]*128.f);
+            val=vorbis_ftoi(OV_FTOI_RANGE(pcm[i][j]*128.f));
             if(val>127)val=127;
             else if(val<-128)val=-128;
             *buffer++=val+off;
@@ -2026,7 +2032,7 @@ long ov_read_filter(OggVorbis_File *vf,char *buffer,int length,
               float *src=pcm[i];
               short *dest=((short *)buffer)+i;
               for(j=0;j<samples;j++) {
-                val=vorbis_ftoi(src[j]*32768.f);
+                val=vorbis_ftoi(OV_FTOI_RANGE(src[j]*32768.f));
                 if(val>32767)val=32767;
                 else if(val<-32768)val=-32768;
                 *dest=val;
@@ -2042,7 +2048,7 @@ long ov_read_filter(OggVorbis_File *vf,char *buffer,int length,
               float *src=pcm[i];
               short *dest=((short *)buffer)+i;
               for(j=0;j<samples;j++) {
-                val=vorbis_ftoi(src[j]*32768.f);
+                val=vorbis_ftoi(OV_FTOI_RANGE(src[j]*32768.f));
                 if(val>32767)val=32767;
                 else if(val<-32768)val=-32768;
                 *dest=val+off;
@@ -2057,7 +2063,7 @@ long ov_read_filter(OggVorbis_File *vf,char *buffer,int length,
           vorbis_fpu_setround(&fpu);
           for(j=0;j<samples;j++)
             for(i=0;i<channels;i++){
-              val=vorbis_ftoi(pcm[i][j]*32768.f);
+              val=vorbis_ftoi(OV_FTOI_RANGE(pcm[i][j]*32768.f));
               if(val>32767)val=32767;
               else if(val<-32768)val=-32768;
               val+=off;
@@ -2071,7 +2077,7 @@ long ov_read_filter(OggVorbis_File *vf,char *buffer,int length,
           vorbis_fpu_setround(&fpu);
           for(j=0;j<samples;j++)
             for(i=0;i<channels;i++){
-              val=vorbis_ftoi(pcm[i][j]*32768.f);
+              val=vorbis_ftoi(OV_FTOI_RANGE(pcm[i][j]*32768.f));
               if(val>32767)val=32767;
               else if(val<-32768)val=-32768;
               val+=off;
